@@ -519,4 +519,15 @@ def check_C11(chk):
         if bad_close:
             chk.failing_input("close() failed on a tracked descriptor (double close?): %s" % bad_close[0], {"build": fl}, key="res:%s:badclose" % fl)
         chk.coverage.setdefault("resource_scenarios", {})[fl] = {s: (got[s]["fds_before"], got[s]["fds_after"]) for s in got}
+        # sends that lose their receiver before, and in the middle of, a multi-fragment transfer (sender as thread and as forked
+        # process): every close the library issues must succeed - a failing close of a number it had already closed is a double close
+        vlines = ["id=1 scen=during len=8388608 proc=0", "id=2 scen=during len=8388608 proc=1", "id=3 scen=before len=300000 natt=3", "id=4 scen=carrier len=4194304"]
+        vrecs, vtrace, vrc, verr = C.run_harness(bins[fl], "vanish", vlines, timeout=300)
+        vbad = [r for r in vtrace if r["call"] == "close" and r.get("res") != 0]
+        if vbad:
+            chk.failing_input("a send that lost its receiver in the middle of a multi-fragment transfer closed a descriptor twice (the second close fails with EBADF - or hits "
+                              "whatever re-used the number): %s" % vbad[0], {"build": fl, "scenarios": vlines, "failing_closes": vbad[:4]}, key="res:%s:vanish-badclose" % fl)
+        if len([r for r in vrecs if r.get("kind") == "vanish"]) < len(vlines):
+            chk.failing_input("the receiver-vanishes scenarios did not complete (rc=%s): %s" % (vrc, verr[-300:]), {"build": fl}, key="res:%s:vanish-incomplete" % fl)
+        chk.coverage.setdefault("vanish_close_scan", {})[fl] = sum(1 for r in vtrace if r["call"] == "close")
     chk.coverage["resource_repetitions"] = n
